@@ -295,6 +295,10 @@ func genSeqCase(r *simrt.Rand, p seqProfile) SeqCase {
 				if p.emptyKey && r.Intn(2) == 0 {
 					id++
 					o := Op{K: "set", Tx: tx + 1, Key: "", ID: id, Size: r.Intn(10)}
+					if id%5 == 1 {
+						// deleting the empty key: whatever the answer, both clients give the same one
+						o = Op{K: "del", Tx: tx + 1, Key: ""}
+					}
 					if id%3 == 0 {
 						// the refused write is a created file (the refusal reaches the writer in a Write
 						// or, at the latest, in Close)
